@@ -188,7 +188,7 @@ def validate_traces(ck, traces, base_consts):
     path.write_text(json.dumps([{k: v for k, v in t.items() if not k.startswith("_")} for t in traces]))
     cfg = (base_consts + "INIT TInit\nNEXT TNext\nCONSTRAINT Furthest\nPOSTCONDITION Accepted\nCHECK_DEADLOCK FALSE\n"
            + inv_lines())
-    r = ck.tlc("MDATrace", cfg, workers=1, timeout=170, env={"TRACE_FILE": str(path)}, coverage=True,
+    r = ck.tlc("MDATrace", cfg, workers=1, timeout=900, env={"TRACE_FILE": str(path)}, coverage=True,
                require_actions=("TExec", "TSingle", "TEnd", "TSilent"))
     verdicts = {v[1]: (int(v[2]), int(v[3])) for v in r.printed() if v and v[0] == "TRACE"}
     if len(verdicts) != len(traces):
@@ -390,7 +390,7 @@ def judge_reports(ck, reports, base_consts):
     path = ck.work / "mda_reports.json"
     path.write_text(json.dumps([{k: v for k, v in r.items() if not k.startswith("_")} for r in reports]))
     cfg = base_consts + "INIT RInit\nNEXT RNext\nINVARIANT Judge\nCHECK_DEADLOCK FALSE\n"
-    r = ck.tlc("MDAReport", cfg, workers=1, timeout=170, coverage=False,
+    r = ck.tlc("MDAReport", cfg, workers=1, timeout=900, coverage=False,
                env={"REPORT_FILE": str(path),
                     # BigNat recursion on 600-bit numbers: a deeper thread stack than the JVM default
                     "JAVA_TOOL_OPTIONS": "-XX:+UseParallelGC -Xss16m -Xmx" + os.environ.get("VERIF_TLC_HEAP", "4g")})
@@ -432,7 +432,7 @@ def run(ck: Check):
     for part in range(parts):
         sub = dict(base, seeds=seeds[part * chunk:(part + 1) * chunk])
         r = ck.tlc("MDA", consts(**sub, **ex, selmod=selmod, selres=(part % selmod,), emit=True) + spec,
-                   workers=4, timeout=170, require_actions=acts + (("NewRun",) if ck.thorough else ()))
+                   workers=4, timeout=900, require_actions=acts + (("NewRun",) if ck.thorough else ()))
         cases += [(D.Instance(v[1]), v[2], int(v[3]), frozenset(tuple(int(i) for i in o) for o in v[4]), bool(v[5]))
                   for v in r.printed() if v and v[0] == "CASE"]
     if not cases:
@@ -445,7 +445,7 @@ def run(ck: Check):
     # properties: TLC refutes APost / NilStop (D0601) - recorded; the conformance uses the repaired rules
     ra = ck.tlc("MDA", consts(**dict(base, profiles=(222,), seeds=seeds[:16]), algs=("GS",), ws=(2,), tols=(2,),
                               maxits=(2,), scals=("no",), rules="asread")
-                + spec, workers=4, timeout=170, expect_ok=False, count=False, coverage=False)
+                + spec, workers=4, timeout=900, expect_ok=False, count=False, coverage=False)
     ck.extra["asread_rules_refuted_invariant"] = ra.violated or "none"
     if not ra.violated:
         ck.assumptions.append("the as-read Gauss-Seidel rules were not refuted on this slice of instances")
